@@ -760,6 +760,61 @@ func init() {
 			}
 			return done(&RValue{T: types.NewPointer(rv.T), P: rv.Addr})
 		},
+		"reflect.Zero": func(e *Exec, t *Thread, a []Value, g bool) (Value, bool) {
+			rt := a[0].(Iface).V.(*RType)
+			return done(&RValue{T: rt.T, Zero: true})
+		},
+		"(reflect.Value).Kind": func(e *Exec, t *Thread, a []Value, g bool) (Value, bool) {
+			rv := a[0].(*RValue)
+			k := uint64(0)
+			if rv.T != nil {
+				switch u := rv.T.Underlying().(type) {
+				case *types.Struct:
+					k = 25
+				case *types.Pointer:
+					k = 22
+				case *types.Slice:
+					k = 23
+				case *types.Array:
+					k = 17
+				case *types.Map:
+					k = 21
+				case *types.Interface:
+					k = 20
+				case *types.Basic:
+					switch u.Kind() {
+					case types.Bool:
+						k = 1
+					case types.Int, types.Int8, types.Int16, types.Int32, types.Int64:
+						k = 2 + uint64(u.Kind()-types.Int)
+					case types.Uint, types.Uint8, types.Uint16, types.Uint32, types.Uint64, types.Uintptr:
+						k = 7 + uint64(u.Kind()-types.Uint)
+					case types.Float32:
+						k = 13
+					case types.Float64:
+						k = 14
+					case types.String:
+						k = 24
+					default:
+						e.unsupported("reflect.Value.Kind of %v", rv.T)
+					}
+				default:
+					e.unsupported("reflect.Value.Kind of %v", rv.T)
+				}
+			}
+			return done(e.C.BVConst(64, k))
+		},
+		"(reflect.Value).Set": func(e *Exec, t *Thread, a []Value, g bool) (Value, bool) {
+			rv, src := a[0].(*RValue), a[1].(*RValue)
+			if !rv.Adr {
+				e.goPanic("reflect: reflect.Value.Set using unaddressable value")
+			}
+			if !src.Zero || !types.Identical(rv.T, src.T) {
+				e.unsupported("reflect.Value.Set with anything but reflect.Zero of the same type")
+			}
+			e.store(rv.Addr, e.zero(rv.T))
+			return done(nil)
+		},
 		"(reflect.Value).Type": func(e *Exec, t *Thread, a []Value, g bool) (Value, bool) {
 			return done(e.rtypeIface(a[0].(*RValue).T))
 		},
@@ -773,9 +828,11 @@ func init() {
 
 		// x/text ISO-8859-1 codec
 		"(*golang.org/x/text/encoding/charmap.Charmap).NewEncoder": func(e *Exec, t *Thread, a []Value, g bool) (Value, bool) {
+			e.onlyLatin1(a[0])
 			return done(Ptr{Obj: e.newObj(nil, e.C.BVConst(8, 1))})
 		},
 		"(*golang.org/x/text/encoding/charmap.Charmap).NewDecoder": func(e *Exec, t *Thread, a []Value, g bool) (Value, bool) {
+			e.onlyLatin1(a[0])
 			return done(Ptr{Obj: e.newObj(nil, e.C.BVConst(8, 2))})
 		},
 		"(*golang.org/x/text/encoding.Encoder).Bytes": func(e *Exec, t *Thread, a []Value, g bool) (Value, bool) {
@@ -932,6 +989,14 @@ func (e *Exec) netPeerAddr(typ string) Ptr {
 	st.F[0] = Slice{Arr: ip, Len: 16, Cap: 16}
 	st.F[1] = e.C.BVConst(64, 3671)
 	return Ptr{Obj: e.newObj(ua, st)}
+}
+
+// onlyLatin1: the codec model is ISO 8859-1 (charmap.ISO8859_1 is represented by a nil placeholder);
+// any other character map is not modelled and must not silently pass as Latin-1.
+func (e *Exec) onlyLatin1(recv Value) {
+	if p, ok := recv.(Ptr); ok && p.Obj != nil {
+		e.unsupported("character map other than charmap.ISO8859_1 (%s) is not modelled", p.Obj.Name)
+	}
 }
 
 func netClose(e *Exec, t *Thread, a []Value, g bool) (Value, bool) {
